@@ -721,6 +721,8 @@ def derives_elem_fact(it, seqterm, f):
             return derives_elem_fact(it, st.arg(1), f) and derives_elem_fact(it, st.arg(2), f)
         if k == z3.Z3_OP_SEQ_EMPTY:
             return True
+        if k == z3.Z3_OP_SEQ_UNIT:
+            return _known(it, f(st.arg(0)))
     if os.environ.get("PYVC_DEBUG_FOLD"):
         print("[not derived]", str(st)[:400].replace("\n", " "), "| registered:", [str(z3.simplify(q))[:80].replace("\n", " ") for q, _ in getattr(it, "elem_facts", [])], file=sys.stderr)
     return False
@@ -1735,7 +1737,20 @@ def _abs_resolve(it, v, a, k):
     if s is None:
         raise Unsupported("resolve() argument")
     it.assumed.append("contract:JSONPathSelector.resolve(abstract)")
-    return GenVal([("yieldfrom", sel_resolve(v, s))])
+    r = sel_resolve(v, s)
+    # what a selector yields are match records of JSON values (postcondition of every resolve contract)
+    it.elem_facts = getattr(it, "elem_facts", []) + [(r, MATCH_RECORD)]
+    return GenVal([("yieldfrom", r)])
+
+
+def MATCH_RECORD(m):
+    return z3.And(
+        Py.is_match(m),
+        Py.is_tuple(Py.mparts(m)),
+        S.json_value(Py.mobj(m)),
+        Py.is_dict(Py.mfc(m)),
+        z3.Or(Py.is_none(Py.mparent(m)), Py.is_match(Py.mparent(m))),
+    )
 
 
 def context_term(it, c):
